@@ -1,0 +1,42 @@
+//go:build verif
+
+package j2p
+
+import "github.com/cloudwego/dynamicgo/proto"
+
+// VerifTrace, when set, is called after every visitor callback with the visitor's state
+// (verification hook, only built with the tag "verif").
+var VerifTrace func(cb string, sp int, topTyp uint8, topLenPos int, pending string, inskip bool, open int)
+
+func (self *visitorUserNode) trace(cb string) {
+	if VerifTrace == nil {
+		return
+	}
+	pending := "none"
+	if fd := self.globalFieldDesc; fd != nil {
+		msg := fd.Kind() == proto.MessageKind
+		switch {
+		case fd.IsMap():
+			pending = "map_scalar"
+			if fd.MapValue().Type() == proto.MESSAGE {
+				pending = "map_msg"
+			}
+		case fd.IsList() && msg:
+			pending = "rep_msg"
+		case fd.IsList():
+			pending = "rep_scalar"
+		case msg:
+			pending = "msg"
+		default:
+			pending = "scalar"
+		}
+	}
+	open := 0
+	for i := 0; i <= int(self.sp); i++ {
+		if self.stk[i].state.lenPos != -1 {
+			open++
+		}
+	}
+	top := self.stk[self.sp]
+	VerifTrace(cb, int(self.sp), top.typ, top.state.lenPos, pending, self.inskip, open)
+}
